@@ -435,17 +435,20 @@ def r3_update_program_replaces(ctx):
     F = ctx.facts
     b = F.body(EXEC + "::update_program")
     fl0 = Flow(b)
+    fln_ = Flow(b, through_named=True)
     assigned = {}
     for bi, si, s in b.stmts():
         if s["k"] != "assign":
             continue
         fs = [e for e in s["p"]["pr"] if e[0] == "f"]
         if fs and (fs[-1][2] or "").endswith("executor::Executor") and s["rv"]["k"] == "use":
-            src = fl0.canon_op(s["rv"]["op"])
-            if src:
-                sf = [e for e in src[1] if e[0] == "f"]
-                if sf and (sf[-1][2] or "").endswith("executor::ProgramUpdate"):
-                    assigned[fs[-1][1]] = sf[-1][1]
+            # the source may be `update.f` itself or a named temporary the update was destructured into
+            for src in (fl0.canon_op(s["rv"]["op"]), fln_.canon_op(s["rv"]["op"])):
+                if src:
+                    sf = [e for e in src[1] if e[0] == "f"]
+                    if sf and (sf[-1][2] or "").endswith("executor::ProgramUpdate"):
+                        assigned[fs[-1][1]] = sf[-1][1]
+                        break
     for f in ("resources", "canonical_tuples", "type_compatibility", "function_param_compatibility", "builtin_param_compatibility"):
         ctx.check(assigned.get(f) == f, R, "%s|%s" % (b.key, f), "self.%s = update.%s (replaced wholesale)" % (f, f),
                   "self.%s is not replaced by update.%s (got %s): the executor keeps a table describing an older program" % (f, f, assigned.get(f)), b.loc(0))
